@@ -14,5 +14,6 @@ CONSTANTS
   LockLocals = TRUE
   GCachePrefilled = TRUE
   FillGlobalCachesUnderLock = FALSE
+  SharedScratch = FALSE
 PROPERTIES Terminates
 CHECK_DEADLOCK FALSE
